@@ -4,7 +4,7 @@ patch="$1"; shift
 s=/verif/build/scratch/try-$$/repo
 mkdir -p $s && cp -r /repo/src $s/ && patch -p1 -s -d $s -i "$patch" || { echo "patch failed"; exit 3; }
 for p in "$@"; do
-  out=$(cd /verif && VERIF_REPO=$s VERIF_EVIDENCE_DIR=/verif/build/seed-evidence ./check $p quick 2>&1)
+  out=$(cd /verif && VERIF_REPO=$s VERIF_SKIP_KANI=1 VERIF_EVIDENCE_DIR=/verif/build/seed-evidence ./check $p quick 2>&1)
   rc=$?
   echo "$p: exit=$rc $(echo "$out" | grep -E '^(VIOLATION|UNDECIDED)' | head -2 | cut -c1-250 | tr '\n' '|')"
 done
